@@ -1,27 +1,13 @@
 package main
 
+import "sort"
+
 // The table of properties: which package decides each one, which test processes are run in
-// each tier and with how many generated cases.
-var properties = []propSpec{
-	{
-		ID: "C06", Pkg: "props/c06", NeedCLI: true,
-		Rule: "cases: nucleotide alignments/sequence sets (1-6 rows, length 0-25, full IUPAC DNA alphabet in both cases plus '-', '.', '*') with a drawn subset of names (unknown and repeated names included), protein/nucleotide sets for case and un-align, all 256 byte values for the complement table, and goalign revcomp/tolower/toupper/unalign executions. " +
-			"Oracle: complement derived from set complementation of the IUPAC definitions, reverse, ASCII case maps, deletion of '-'; involution and idempotence. " +
-			"Non-trivial: the transform changed the data AND the rows contain a non self-complementary ambiguity code or mixed case or the subset is a proper subset (revcomp); mixed case and at least one gap removed (case/unalign); distinct = distinct JSON form of the case",
-		Assumptions: []string{
-			"U/u are outside the DNA alphabet of the quantifier (the table maps U to A, so no involution is claimed for RNA); any behaviour on them is accepted",
-			"absence of violations is established on the explored cases only; the 256-entry complement table is enumerated completely",
-		},
-		LevelText: "Generated-input search against a reference model: ~14 000 (quick) to ~2 million (thorough) alignments, subsets and command executions compared with a complement derived from IUPAC set complementation, plus complete enumeration of the 256-entry byte table. Shows absence of violations on what was explored; the table part is exhaustive.",
-		LevelNote: "trusts the harness's IUPAC set table and its minimal FASTA reader; RNA letters U/u are outside the quantifier",
-		Technique: "property-based testing (rapid): reference model + involution/idempotence relations; exhaustive table enumeration; command-line differential",
-		DesignRef: "DESIGN.md section 5, C06",
-		Runs: []runSpec{
-			{Name: "revcomp", Test: "^TestRevComp$", Quick: 6000, Thorough: 100000, Shards: 8},
-			{Name: "table", Test: "^TestComplementTable$", Quick: 1, Thorough: 1},
-			{Name: "case-unalign", Test: "^TestCaseUnalign$", Quick: 4000, Thorough: 100000, Shards: 4},
-			{Name: "sequence", Test: "^TestSequenceLevel$", Quick: 4000, Thorough: 100000, Shards: 2},
-			{Name: "cli", Test: "^TestCLI$", Quick: 150, Thorough: 1500, Shards: 4},
-		},
-	},
+// each tier and with how many generated cases. One file prop_cNN.go per property registers
+// its entry from init().
+var properties []propSpec
+
+func register(p propSpec) {
+	properties = append(properties, p)
+	sort.Slice(properties, func(i, j int) bool { return properties[i].ID < properties[j].ID })
 }
